@@ -343,6 +343,9 @@ where
             }
         };
         let case = tree.current();
+        if std::env::var_os("VERIF_ECHO").is_some() {
+            eprintln!("CASE {}", serde_json::to_string(&case).unwrap_or_default());
+        }
         let report = engine.run_case(&case);
         PROGRESS.fetch_add(1, std::sync::atomic::Ordering::Relaxed);
         out.evaluations += 1;
